@@ -34,12 +34,12 @@ func init() {
 			}
 			return 16
 		},
-		Rule: "each case = one real service stack with the harness system SCORE 'verif' (contract.RegisterSystemScore, installed at a fixed funded address by the setup block) and 5 programs. A program is a JSON op list interpreted by the SCORE against the real call context: set/delete storage, transfer ICX to EOAs (ICXTransfer event), emit event, queue BTP message, add validator, move the sender's balance ('drain'), nested inter-calls to itself up to depth 3 whose failure is caught or propagated, consume steps, revert(code), burn all steps. The transaction fails by revert / out of step (program or a step limit cut at a chosen count) / unknown method or bad parameter / non-payable method with value / transfer of more than the SCORE owns / out of balance at fee time (after 'drain'), after 0..k mutations at every nesting depth; it carries value in a third of the cases. It is executed alone or between two succeeding transfers, and the SAME block without it is executed on the same parent as control. Oracle: every account of the account trie (encoding incl. storage root), validator list, BTP data and extension data of the two results are identical except payer balance -fee and treasury +fee (fee = stepUsed x stepPrice of the receipt), and the receipt has no event logs and no BTP messages. Non-trivial = distinct failing program that executed at least one mutation before failing.",
+		Rule: "each case = one real service stack with the harness system SCORE 'verif' (contract.RegisterSystemScore, installed at a fixed funded address by the setup block) and 6 programs. A program is a JSON op list interpreted by the SCORE against the real call context: set/delete storage, transfer ICX to EOAs (ICXTransfer event), emit event, queue BTP message, add validator, move the sender's balance ('drain'), nested inter-calls to itself up to depth 3 whose failure is caught or propagated, consume steps, revert(code), burn all steps. The transaction fails by revert / out of step (program or a step limit cut at a chosen count) / unknown method or bad parameter / non-payable method with value / transfer of more than the SCORE owns / out of balance at fee time (after 'drain'), after 0..k mutations at every nesting depth; it carries value in a third of the cases. It is executed alone or between two succeeding transfers, and the SAME block without it is executed on the same parent as control. Oracle: every account of the account trie (encoding incl. storage root), validator list, BTP data and extension data of the two results are identical except payer balance -fee and treasury +fee (fee = stepUsed x stepPrice of the receipt), and the receipt has no event logs and no BTP messages. Non-trivial = distinct failing program that executed at least one mutation before failing.",
 		MinNonTrivial: func(t string) int {
 			if t == ev.Thorough {
 				return 10000
 			}
-			return 200
+			return 180
 		},
 		Required: []string{"programs", "failed_tx_judged", "failed_after_mutations", "status_Reverted", "status_OutOfStep", "status_OutOfBalance",
 			"status_MethodNotFound", "failed_with_value", "failed_depth_ge_3", "failed_with_caught_inner_failure", "failed_after_event", "failed_after_btp",
@@ -71,12 +71,12 @@ type env struct {
 }
 
 type genState struct {
-	r         *rand.Rand
-	e         *env
-	feat      map[string]bool
-	scoreBal  *big.Int
-	sender    module.Address
-	maxDepth  int
+	r        *rand.Rand
+	e        *env
+	feat     map[string]bool
+	scoreBal *big.Int
+	sender   module.Address
+	maxDepth int
 }
 
 func (g *genState) mutation(depth int) op {
@@ -213,7 +213,7 @@ func run(c *ev.Ctx) {
 		}
 		takeTrace(pre.ID())
 		var emptyControl *result
-		for pi := 0; pi < 5 && !c.Stopped(); pi++ {
+		for pi := 0; pi < 6 && !c.Stopped(); pi++ {
 			e.program(c, r, b1, ts+1000, &emptyControl)
 		}
 	})
@@ -395,6 +395,9 @@ func (e *env) program(c *ev.Ctx, r *rand.Rand, parent *feefix.Block, ts int64, e
 	wit["stepUsed"] = rc.StepUsed().String()
 	wit["stepPrice"] = rc.StepPrice().String()
 	c.Count("status_"+st.String(), 1)
+	if st >= module.StatusReverted {
+		c.Count("status_Reverted", 1)
+	}
 	if st == module.StatusSuccess {
 		c.Count("tx_succeeded", 1)
 		// the monitor is not vacuous: a successful program's effects are visible in the same comparison
